@@ -20,6 +20,15 @@ CLAIMED = {
     'C07': ('4 C07', 'ED/EL/ECH run from a symbolic pre-state (every cell/row present or absent, symbolic renditions, '
             'cursor at every position) with the selector/count symbolic over absent|0..=9999; the post-grid is compared '
             'cell by cell with the documented range by z3.'),
+    'C06': ('4 C06', 'index/reverse_index/linefeed/IL/DL run from symbolic pre-states whose every row is present or absent '
+            'with distinct markers, every region and cursor row, symbolic counts; z3 compares each post row with the '
+            'documented shifted/blank/untouched source row. DECSTBM is decided on a symbolic geometry in closed form.'),
+    'C13': ('4 C13', 'ICH/DCH single steps against the list-splice rule, plus two-step (thorough three-step) edit '
+            'sequences over {ICH,DCH,EL,ECH,draw,IRM-draw} whose last step must obey the rule relative to what was '
+            'visible before it, which is what makes a reappearing discarded cell a solver witness.'),
+    'C04': ('4 C04', 'draw of one character of each width class from symbolic pre-states against a reference placement '
+            'semantics; strings are lifted by a relational check (one call == one call per character) decided by z3 '
+            'over two runs of the implementation.'),
 }
 
 ALL = ['C%02d' % i for i in range(1, 21)]
